@@ -6,19 +6,22 @@
 # A surviving mutant is either equivalent/harmless for the 20 properties or a hole in the contracts;
 # the list is reviewed by hand (DESIGN.md 9.9).  Not part of any registered check.
 # usage: mutscore.sh <file relative to /repo> <function-name regexp for kvc verify> [jobs]
+# KMUT_BASE=<dir>: mutate a snapshot of the repository instead of /repo (e.g. `git -C /repo archive HEAD | tar -x -C <dir>`),
+# KMUT_KVC=<binary>: a copy of bin/kvc, so that the working tree and the engine can be edited while a long run is in progress.
 f=$1; re=$2; jobs=${3:-4}
+export KMUT_BASE=${KMUT_BASE:-/repo} KMUT_KVC=${KMUT_KVC:-/verif/bin/kvc}
 export GOFLAGS=-mod=mod GOPROXY=off GOSUMDB=off GOTOOLCHAIN=local
 cd /verif
 [ -x bin/kmut ] || (cd engine && go build -o /verif/bin/kmut ./cmd/kmut)
-n=$(./bin/kmut -file /repo/$f -count)
+n=$(./bin/kmut -file $KMUT_BASE/$f -count)
 one() {
   i=$1; f=$2; re=$3
   s=$(mktemp -d /tmp/kmutwork.XXXXXX)
-  rsync -a --exclude .git /repo/ $s/
-  desc=$(/verif/bin/kmut -file /repo/$f -n $i 2>&1 >$s/$f.new | sed "s#/repo/##")
+  rsync -a --exclude .git $KMUT_BASE/ $s/
+  desc=$(/verif/bin/kmut -file $KMUT_BASE/$f -n $i 2>&1 >$s/$f.new | sed "s#$KMUT_BASE/##")
   mv $s/$f.new $s/$f
   if ! (cd $s && go build ./$(dirname $f) >/dev/null 2>&1); then echo "stillborn $desc"; rm -rf $s; return; fi
-  out=$(/verif/bin/kvc verify -repo $s -func "$re" -structural -t 4 2>&1)
+  out=$($KMUT_KVC verify -verif ${KMUT_VERIF:-/verif} -repo $s -func "$re" -structural -t 4 2>&1)
   rc=$?
   rm -rf $s
   if [ $rc -ne 0 ]; then
